@@ -30,6 +30,8 @@ RULE = ("histories of lifecycle calls (setup / iterate / iterate_n(k) / run(0|1 
         "also random up to length 40), two objects with non-overlapping live intervals, two objects with overlapping ones, calls on "
         "a released engine, iterate_n(k<=0) after completion, one RDScript object (quantity unit mol / µmol) set up on two engine objects "
         "and again on the first, another engine object (never set up / finalized / temporary) garbage-collected while one is mid-run, "
+        "output fetched, the returned object modified by the caller, output fetched again; three runs mixing grid and graph with the middle one abandoned; "
+        "fixed-step runs landing exactly on t_max polled with is_complete(); "
         "simulate_script on a run of ~2 s, run(ms) slices timed on a simulation with 10^9 steps left, "
         "iterate_n(k) with k around and at multiples of 1024; scripts: 3 engines x grid/graph x 4 policies incl. species totals "
         "below one molecule; non-trivial when the history has >= 3 calls; distinct by (scripts, calls)")
@@ -63,6 +65,7 @@ def make_pool(ctx, n, kind="plain", degenerate=False):
         S, info = lc.gen_script(rng, option, max_steps=24 if option != "gillespie" else 8, sub_molecule=sub,
                                 mode=("auto" if sub else None), units=("force" if forced_q else rng.random() < 0.3),
                                 quantity=(rng.choice(["mol", "µmol"]) if forced_q else None), refused_edits=(i % 7 == 2),
+                                exact_tie=(i % 6 == 5 and option != "gillespie") or (i % 12 == 3 and option == "euler"),
                                 zero_tmax=(True if forced0 else None), space_kind=(["grid", "graph"][(i // 9) % 2] if forced0 else None),
                                 degenerate=(degenerate and rng.random() < 0.7))
         info["sub_molecule"] = sub
@@ -154,7 +157,7 @@ def rand_call(rng, obj, live, pool_opt, scripts, allow_zero_n=False):
 
 
 def gen_history(rng, hid, cls, pool_by_opt, length):
-    """cls: one | blocks | overlap | uaf | itn0 | shared | gc"""
+    """cls: one | blocks | overlap | uaf | itn0 | shared | gc | refetch | abandon | tie"""
     opts = [o for o in lc.OPTIONS if pool_by_opt.get(o)]
     nobj = 2 if cls in ("blocks", "overlap", "shared", "gc") else 1
     engines = [rng.choice(opts) for _ in range(nobj)]
@@ -217,6 +220,64 @@ def gen_history(rng, hid, cls, pool_by_opt, length):
             calls += [{"obj": obj, "call": "setup", "script": 0, "pool": p["idx"], "peek": True},
                       {"obj": obj, "call": "iterate_n", "n": rng.choice([1000, 1024, 2048]), "peek": True}, {"obj": obj, "call": "get_output"},
                       {"obj": obj, "call": "finalize"}]
+    elif cls == "refetch":
+        # the output is fetched, the caller MODIFIES the object it was given (its .script / its .system), the output is
+        # fetched again: same script, system, units, shape and (at the same step) data as the first fetch
+        p = rng.choice(pool_by_opt[engines[0]])
+        scripts[p["idx"]] = 0
+        calls = [{"obj": 0, "call": "setup", "script": 0, "pool": p["idx"], "peek": True}]
+        for _ in range(rng.randint(0, 3)):
+            calls.append({"obj": 0, "call": "iterate", "peek": True})
+        calls += [{"obj": 0, "call": "get_output"},
+                  {"obj": 0, "call": "mutate_out", "what": rng.choice(["script_units", "script_units", "script_tsample", "system_state", "script_system"])},
+                  {"obj": 0, "call": "get_output"}]
+        if rng.random() < 0.6:
+            calls += [{"obj": 0, "call": "iterate_n", "n": rng.choice([1, 2, 1000]), "peek": True}, {"obj": 0, "call": "get_output"}]
+        calls.append({"obj": 0, "call": "finalize"})
+    elif cls == "abandon":
+        # three simulations on one engine object mixing the space types: run + finalize, a run that is ABANDONED (the next
+        # set-up follows directly), a third run — the mirror orders too
+        by_space = {}
+        for o in opts:
+            for p in pool_by_opt[o]:
+                by_space.setdefault(p["info"]["space"], []).append(p)
+        kinds = [k for k in ("grid", "graph") if by_space.get(k)]
+        a = rng.choice(kinds)
+        b = [k for k in kinds if k != a][0] if len(kinds) > 1 else a
+        order = rng.choice([[a, b, a], [a, b, b], [a, a, b], [b, a, b]])
+        fin = rng.choice([[True, False, True], [False, False, True], [True, False, False]])
+        engines = [rng.choice(opts)]
+        for sp, f in zip(order, fin):
+            cand = [p for p in by_space[sp] if p["option"] == engines[0]] or None
+            if cand is None:
+                continue
+            p = rng.choice(cand)
+            scripts.setdefault(p["idx"], len(scripts))
+            calls.append({"obj": 0, "call": "setup", "script": scripts[p["idx"]], "pool": p["idx"], "peek": True})
+            for _ in range(rng.randint(1, 3)):
+                calls.append({"obj": 0, "call": rng.choice(["iterate", "iterate", "sample"]), "peek": True})
+            if rng.random() < 0.5:
+                calls.append({"obj": 0, "call": "get_output"})
+            if f:
+                calls.append({"obj": 0, "call": "finalize"})
+        calls += [{"obj": 0, "call": "iterate_n", "n": 1000, "peek": True}, {"obj": 0, "call": "get_output"}, {"obj": 0, "call": "finalize"}, {"obj": 0, "call": "finalize"}]
+    elif cls == "tie":
+        # a fixed-step run whose clock lands exactly on t_max, polled with is_complete() between the iterations: the status is
+        # the one the loop calls returned (not complete at t == t_max; one more step follows)
+        ties = [p for o in opts for p in pool_by_opt[o] if p["ref"]["stop"] is None and p["ref"]["N"] >= 2
+                and p["ref"]["T"][p["ref"]["N"] - 1] == p["ref"]["meta"]["tmax"] and p["option"] != "gillespie"]
+        p = rng.choice(ties) if ties else rng.choice(pool_by_opt[engines[0]])
+        engines = [p["option"]]
+        scripts[p["idx"]] = 0
+        N = p["ref"]["N"]
+        calls = [{"obj": 0, "call": "setup", "script": 0, "pool": p["idx"], "peek": True}, {"obj": 0, "call": "is_complete"}]
+        if rng.random() < 0.5:
+            for _ in range(N + 1):
+                calls += [{"obj": 0, "call": "iterate", "peek": True}, {"obj": 0, "call": "is_complete"}]
+        else:
+            calls += [{"obj": 0, "call": "iterate_n", "n": max(N - 1, 1), "peek": True}, {"obj": 0, "call": "is_complete"}, {"obj": 0, "call": "get_progress"},
+                      {"obj": 0, "call": "is_complete"}, {"obj": 0, "call": "iterate", "peek": True}, {"obj": 0, "call": "is_complete"}]
+        calls += [{"obj": 0, "call": "get_output"}, {"obj": 0, "call": "finalize"}]
     elif cls == "gc":
         # while object 0 is mid-run, ANOTHER engine object on the same library that is not set up (never was / finalized long
         # ago / a throw-away temporary) loses its last reference and is garbage-collected: object 0 must not notice
@@ -274,8 +335,8 @@ def reference_machine(job, pool_by_idx, results):
             bad.append((i, "raised", "%s() raised %s" % (k, r["raised"]), r["raised"], "no exception"))
             return bad
         ret = r.get("ret")
-        if k == "temp":
-            continue            # another object came and went: nothing changes for anyone
+        if k in ("temp", "mutate_out"):
+            continue            # another object came and went / the caller modified ITS copy of an output: nothing changes for anyone
         if k == "drop":
             st[o] = None
             continue
@@ -602,6 +663,14 @@ def explore(ctx, n_pool, n_hist, kind="plain", degenerate=False, long_histories=
             cls = "shared"
         elif i in (5, 6, 7):
             cls = "gc"
+        elif i in (8, 9, 10, 11):
+            cls = "refetch"
+        elif i in (12, 13, 14, 15):
+            cls = "abandon"
+        elif i in (16, 17, 18):
+            cls = "tie"
+        elif r >= 0.1 and r < 0.2:
+            cls = ["refetch", "abandon", "tie"][i % 3]
         elif r < 0.1 and r >= 0.05:
             cls = "gc"
         elif r < 0.05:
@@ -661,7 +730,7 @@ def explore(ctx, n_pool, n_hist, kind="plain", degenerate=False, long_histories=
             ctx.violation(key, "%s of %s() (call %d of the history, class %s): %s" % (what, call, at, cls, r["status"]), case,
                           impl={"status": r["status"], "at": at, "returns_before": [x.get("ret") if not isinstance(x.get("ret"), dict) else "trajectory" for x in results][-6:],
                                 "stderr": r.get("stderr", "")[-300:]}, expected="every call returns")
-        bad = reference_machine(job, pool_by_idx, results)
+        bad = reference_machine(job, pool_by_idx, results) + lc.refetch_failures(job["calls"], results)
         for (i, key, what, impl, exp) in bad:
             if cls == "overlap":
                 key = KEY_SHARED
@@ -669,7 +738,7 @@ def explore(ctx, n_pool, n_hist, kind="plain", degenerate=False, long_histories=
                 key = KEY_GC
                 what = what + " — after another engine object (not set up) on the same library was garbage-collected"
             ctx.violation(key, "call %d (%s, object %d): %s" % (i, job["calls"][i]["call"], job["calls"][i]["obj"], what), case, impl=impl, expected=exp)
-        if results and cls != "gc":
+        if results and cls not in ("gc", "refetch"):
             annotate_run_counts(job, pool_by_idx, results)
             ops.append(model_op(job, pool_by_idx, results))
             metas.append((job, results, case, r["status"]))
